@@ -68,15 +68,21 @@ fn judge_plain(dir: &Path, sc: &Scenario, obs: &mut Obs) -> Judge {
 
 pub fn run(ctx: &Ctx) {
     sim::init();
-    ctx.set_rule("the real Worker::receive_file under a simulated socket: blksize x windowsize x upload sizes around block/window boundaries; arrivals = the datagrams of a conformant model sender passed through a fault network (<=8 drop/dup/swap/late fates in either direction) and/or an adversarial script (duplicates of earlier blocks, blocks ahead of their turn, stray ACK/OACK/undecodable datagrams, delays, losses, ERROR) at every position. Oracle: an ACK never runs ahead of the blocks received in sequence (R1); at every ACK emission the file on disk is read back and must be the in-order concatenation and contain every acknowledged block (R2); after a completed upload the file equals blocks 1..n once each (R5). A wire part uploads to the real tftpd (both port modes, blksize 8..16384, windowsize 1..6) with duplicated and replayed blocks and reads the stored file at every ACK it receives (ACK(k) implies blocks 1..k are stored). Non-trivial = >=2 blocks accepted and >=1 duplicate/out-of-order/stray datagram delivered; distinct = distinct (scenario, trace shape).");
+    ctx.set_rule("the real Worker::receive_file under a simulated socket: blksize x windowsize x upload sizes around block/window boundaries; arrivals = the datagrams of a conformant model sender passed through a fault network (<=8 drop/dup/swap/late fates in either direction) and/or an adversarial script (duplicates of earlier blocks, blocks ahead of their turn, stray ACK/OACK/undecodable datagrams, delays, losses, ERROR) at every position. Oracle: an ACK never runs ahead of the blocks received in sequence (R1); at every ACK emission the file on disk is read back and must be the in-order concatenation and contain every acknowledged block (R2); after a completed upload the file equals blocks 1..n once each (R5). A wire part uploads to the real tftpd (both port modes, blksize 8..16384, windowsize 1..6) with duplicated and replayed blocks and reads the stored file at every ACK it receives (ACK(k) implies blocks 1..k are stored). A relay part runs the real tftpc against the real tftpd through a UDP relay that duplicates, reorders and drops datagrams: the server ends with a byte-identical file or with no completed one. Non-trivial = >=2 blocks accepted and >=1 duplicate/out-of-order/stray datagram delivered; distinct = distinct (scenario, trace shape).");
     ctx.assume("injected DATA always carries the true payload of its absolute block (what duplication/reordering of a conformant sender's datagrams can produce)");
     let dirs = DirPool::new(ctx, "c02");
     explore(ctx, "random", ctx.tier.pick(200_000, 4_000_000), strategy, |c: &Scenario, o| dirs.with(|d| judge(d, c, o)));
     explore_n(ctx, "big-window", ctx.tier.pick(64, 2_000), shards(), 16, big_window_strategy, |c: &Scenario, o| dirs.with(|d| judge(d, c, o)));
     super::c0xw::run_wire(ctx, true);
+    // the real tftpc and the real tftpd with a relay in between that duplicates, reorders and (completion optional) drops datagrams:
+    // the receiving side ends with a byte-identical file or with none
+    super::c04w::run_relay_random(ctx, true);
 }
 
 pub fn replay(ctx: &Ctx, part: &str, case: &Value) -> bool {
+    if part.starts_with("wire-relay-") {
+        return super::c04w::replay(ctx, part, case);
+    }
     if part.starts_with("wire-") {
         return super::c0xw::replay(ctx, part, case);
     }
